@@ -8,6 +8,7 @@ package checks
 import (
 	"context"
 	"fmt"
+	"furikoverif/internal/core"
 	"math/rand"
 	"regexp"
 	"sort"
@@ -138,8 +139,17 @@ func (h *cronHarness) boot() error {
 		inf.InitialSync(h.api)
 	}
 	h.worker = croncontroller.NewCronWorker(cctx, h.rec)
-	return h.worker.Init()
+	var err error
+	if !core.Bounded(60*time.Second, func() { err = h.worker.Init() }) {
+		cronHung = true
+		return fmt.Errorf("CronWorker.Init does not return (60 s of CPU time spent)")
+	}
+	return err
 }
+
+// cronHung is set when a call into the cron controller was abandoned because it never returned; the goroutine
+// running it cannot be stopped, so the worker process ends after the current case (core.AbortWorker).
+var cronHung bool
 
 // deliverAll moves every committed JobConfig change into the controller's cache (and through its handlers).
 func (h *cronHarness) deliverAll() int {
@@ -171,7 +181,10 @@ func (h *cronHarness) tick(budget int) (got []cronReq, first time.Time, ok bool)
 				panic(r)
 			}
 		}()
-		h.worker.Work()
+		if !core.Bounded(60*time.Second, h.worker.Work) {
+			cronHung = true
+			ok = false
+		}
 	}()
 	h.clk.Budget = 0
 	h.cacheBudget = 0
